@@ -255,8 +255,20 @@ class DividerSystem:
 
     def observe(self):
         s = self.sched
-        return ([CODE[s.status(t)] for t in range(self.ntid)], [list(l) for l in self.logs],
-                [len(self.mbs[d]._mailbox) for d in self.names])
+        o = [CODE[s.status(0)]]
+        t = 1
+        q = 0
+        for j, d in enumerate(self.names):
+            for _ in self.case["subs"][j]:
+                log = self.logs[q]
+                o.append(CODE[s.status(t)])
+                o.append(len(log))
+                o.extend(log)
+                t += 1
+                q += 1
+            o.append(len(self.mbs[d]._mailbox))
+            o.append(int(self.mbs[d].closed))
+        return " ".join(map(str, o))
 
     def final_info(self):
         s = self.sched
@@ -267,12 +279,38 @@ class DividerSystem:
                 "killed": [self.mbs[d].killed for d in self.names]}
 
 
+def parse_dobs(case, o):
+    """-> (divider code, [(status codes...)], logs (flat, subscriber order), box sizes, closed flags)"""
+    v = [int(x) for x in o.split()]
+    pos = 1
+    codes, logs, nbox, closed = [v[0]], [], [], []
+    for subs in case["subs"]:
+        for _ in subs:
+            codes.append(v[pos])
+            n = v[pos + 1]
+            logs.append(v[pos + 2:pos + 2 + n])
+            pos += 2 + n
+        nbox.append(v[pos])
+        closed.append(v[pos + 1])
+        pos += 2
+    return codes, logs, nbox, closed
+
+
+def divider_line(case, schedule, cmd="drun"):
+    toks = [cmd, -1 if case["cap"] is None else case["cap"], int(case["lazy"]), len(case["subs"])]
+    for j, subs in enumerate(case["subs"]):
+        toks += [int(j in case["flow_freely"]), len(subs)] + [int(bool(d)) for d in subs]
+    toks += [case["n"], len(schedule)] + list(schedule)
+    return " ".join(str(t) for t in toks)
+
+
 def divider_failure(case, res):
     """C05 on divide_outputs: every target mailbox's subscribers receive that mailbox's component of
     every dict, in order; eager mailboxes stay within capacity; no deadlock; everything ends."""
     n = case["n"]
     owner = None
-    for i, (codes, logs, nbox) in enumerate(res.obs):
+    for i, o in enumerate(res.obs):
+        codes, logs, nbox, _closed = parse_dobs(case, o)
         if owner is None:
             owner = []
             for j, subs in enumerate(case["subs"]):
@@ -401,7 +439,8 @@ def model_obs(line_out):
 
 def compare_with_model(case, results):
     """results: list of RunResult.  Returns list of (index, description) of disagreements."""
-    lines = [case_line(case, r.schedule) for r in results]
+    mk = divider_line if case.get("type") == "divider" else case_line
+    lines = [mk(case, r.schedule) for r in results]
     outs = lib.run_model("C05", lines)
     bad = []
     for idx, (r, mo) in enumerate(zip(results, outs)):
@@ -451,10 +490,14 @@ def exec_task(task):
     kind = task["kind"]
     fac = system_factory(case)
     results = []
+    extra = []
     truncated = False
     graph = None
     if kind == "cover":
-        line = case_line(case, [], "cover").rsplit(" ", 1)[0] + " %d" % task.get("max_states", 100000)
+        if case.get("type") == "divider":
+            line = divider_line(case, [], "dcover").rsplit(" ", 1)[0] + " %d" % task.get("max_states", 100000)
+        else:
+            line = case_line(case, [], "cover").rsplit(" ", 1)[0] + " %d" % task.get("max_states", 100000)
         out = lib.run_model("C05", [line])[0]
         head, *scheds = out.split(" ; ")
         nst, ned, trunc, nterm, ndead = [int(x) for x in head.split()]
@@ -465,7 +508,12 @@ def exec_task(task):
             scheds = [scheds[i] for i in sorted(rng.sample(range(len(scheds)), task["sample"]))]
             graph["sampled"] = len(scheds)
         for sc in scheds:
-            results.append(run_schedule(fac, [int(x) for x in sc.split()]))
+            r = run_schedule(fac, [int(x) for x in sc.split()])
+            results.append(r)
+            if r.outcome in ("not-enabled", "open") and len(extra) < 200:
+                # the implementation left the model's path: finish the run anyway (lowest enabled thread
+                # first) so that the property's own predicates see a maximal schedule
+                extra.append(run_schedule(fac, r.schedule, extend=lambda en, last: en[0], max_steps=2000))
     elif kind == "dfs":
         for r in explore_dfs(fac, task["bound"], max_runs=task["max_runs"]):
             results.append(r)
@@ -481,7 +529,7 @@ def exec_task(task):
            "nontrivial": 0, "valid": valid, "hashes": [], "sample": None}
     for r in results:
         out["outcomes"][r.outcome] = out["outcomes"].get(r.outcome, 0) + 1
-    bad = compare_with_model(case, results) if (task.get("compare", True) and not divider) else []
+    bad = compare_with_model(case, results) if task.get("compare", True) else []
     for idx, what in bad[:3]:
         r = results[idx]
         d = {"schedule": r.schedule, "what": what, "impl_obs": r.obs, "outcome": r.outcome}
@@ -492,7 +540,7 @@ def exec_task(task):
                                      % graph["deadlock_states"], "impl_obs": [], "outcome": "model"})
         out["n_disagreements"] += 1
     nfail = 0
-    for r in results:
+    for r in results + extra:
         if valid:
             f = divider_failure(case, r) if divider else property_failure(case, r)
             if f:
@@ -501,7 +549,7 @@ def exec_task(task):
                     out["failures"].append({"schedule": r.schedule, "what": f, "outcome": r.outcome,
                                             "final": r.system_info})
         if divider:
-            if r.outcome == "complete" and any(1 in o[0] for o in r.obs):
+            if r.outcome == "complete" and any(1 in parse_dobs(case, o)[0] for o in r.obs):
                 out["nontrivial"] += 1
         elif r.outcome in ("complete", "deadlock") and _nontrivial(case, r):
             out["nontrivial"] += 1
@@ -538,20 +586,30 @@ def _worker_init(counter):
         pass
 
 
-def run_tasks(tasks, nproc=None):
+def run_tasks(tasks, nproc=None, fail_fast=False):
+    """Run the tasks in worker processes.  Results come back in task order (None = not run).  With
+    fail_fast the remaining tasks are abandoned as soon as the first task *in submission order* reports a
+    concrete failing input (deterministic: the submission order is fixed)."""
     import multiprocessing as mp
     nproc = nproc or min(16, os.cpu_count() or 4)
     if len(tasks) <= 1 or nproc <= 1:
-        return [exec_task(t) for t in tasks]
+        out = []
+        for t in tasks:
+            out.append(exec_task(t))
+            if fail_fast and out[-1]["failures"]:
+                break
+        return out + [None] * (len(tasks) - len(out))
     ctxm = mp.get_context("fork")
     counter = ctxm.Value("i", 0)
     # biggest first for load balance; results are re-ordered to task order afterwards
     order = sorted(range(len(tasks)), key=lambda i: -tasks[i].get("weight", 1))
-    with ctxm.Pool(nproc, initializer=_worker_init, initargs=(counter,)) as pool:
-        res = pool.map(exec_task, [tasks[i] for i in order], chunksize=1)
     out = [None] * len(tasks)
-    for i, r in zip(order, res):
-        out[i] = r
+    with ctxm.Pool(nproc, initializer=_worker_init, initargs=(counter,)) as pool:
+        for i, r in zip(order, pool.imap(exec_task, [tasks[i] for i in order], chunksize=1)):
+            out[i] = r
+            if fail_fast and r["failures"]:
+                pool.terminate()
+                break
     return out
 
 
@@ -573,7 +631,11 @@ def escalated(ctx):
 
 def build_tasks(ctx):
     import itertools
-    big = ctx.thorough or escalated(ctx)
+    big = ctx.thorough
+    # anchors of mailbox.py drifted: larger budget in the quick tier too (3-subscriber graphs with 4
+    # messages in full, larger samples of the biggest graphs, twice the random walks), short of thorough
+    esc = big or escalated(ctx)
+    nsample = 600 if esc else 250
     tasks = []
     rng = ctx.rng
 
@@ -585,7 +647,9 @@ def build_tasks(ctx):
                      * (case["cap"] or 3))
         if t.get("sample"):
             t["seed"] = rng.getrandbits(48)
-            t["weight"] = 500
+            t["weight"] = kw.get("weight", 500)
+        if kind == "cover" and case.get("type") != "divider" and S <= 2 and N <= 2 and case["killer"] < 0:
+            t["weight"] = 10 ** 7      # tiny graphs first: a basic defect is reported within seconds
         tasks.append(t)
 
     # (1) every transition of the model's reachable state graph, replayed on the implementation.
@@ -595,14 +659,14 @@ def build_tasks(ctx):
     for S in range(1, Smax + 1):
         for N in range(0, Nmax + 1):
             for cap in (1, 2, 3, 4):
-                full = big or S < 3 or N <= 3 or (N == 4 and cap <= 2) or (N == 5 and cap == 1)
-                add("cover", mk_case(cap, False, [True] * S, N), sample=None if full else 250)
+                full = big or S < 3 or N <= 3 or (N == 4 and (cap <= 2 or esc)) or (N == 5 and cap == 1)
+                add("cover", mk_case(cap, False, [True] * S, N), sample=None if full else nsample)
             for mi, m in enumerate(masks(S)):
-                full = big or S < 3 or N <= 2 or (N == 3 and mi in (0, 3, 6))
-                add("cover", mk_case(None, True, m, N), sample=None if full else 250)
+                full = big or S < 3 or N <= 2 or (N == 3 and (esc or mi in (0, 3, 6)))
+                add("cover", mk_case(None, True, m, N), sample=None if full else nsample)
                 if N <= 3 or big:
                     # lazy with a finite max_messages (ThreadedMailboxProcessor sets it after construction)
-                    add("cover", mk_case(1 if N % 2 else 2, True, m, N), sample=None if full else 250)
+                    add("cover", mk_case(1 if N % 2 else 2, True, m, N), sample=None if full else nsample)
     # futures: every subset of messages is a future (N <= 3), S <= 2
     for S in (1, 2):
         for N in (1, 2, 3):
@@ -647,7 +711,7 @@ def build_tasks(ctx):
 
     # (2) model-independent depth-first enumeration on the implementation with a preemption bound
     b = 3 if big else 2
-    cap_runs = 60000 if big else 4000
+    cap_runs = 60000 if big else 2500
 
     def bnd(S, N):
         return b if (S == 1 or N <= 1) else (b - 1 if N == 2 else max(1, b - 2))
@@ -671,7 +735,8 @@ def build_tasks(ctx):
               div(1, None, [[1], [1]], 2), div(1, None, [[1], [0]], 2, ff=(1,)), div(1, None, [[1, 0], [1]], 2),
               div(1, 2, [[1], [1]], 2), div(1, None, [[1], [0], [1]], 1, ff=(1,))]
     for c in dcases:
-        add("dfs", c, bound=(2 if big else 1), max_runs=(30000 if big else 1500), weight=10 ** 6, compare=False)
+        add("cover", c, sample=None if big else 400, weight=5000)
+        add("dfs", c, bound=(2 if big else 1), max_runs=(30000 if big else 1500), weight=10 ** 6)
     for _ in range(40 if big else 12):
         nmb = rng.randint(2, 3)
         lazy = rng.random() < 0.5
@@ -685,10 +750,10 @@ def build_tasks(ctx):
                 subs.append([1] + [rng.randint(0, 1) if lazy else 1 for _ in range(k - 1)])
         c = div(lazy, None if (lazy and rng.random() < 0.7) else rng.randint(1, 3), subs, rng.randint(0, 4), ff)
         add("random", c, n=(300 if big else 80), seed=rng.getrandbits(48), sticky=rng.choice([0.0, 0.5, 0.8]),
-            weight=10 ** 5, compare=False)
+            weight=10 ** 5)
 
     # (3) seeded random walks over the whole range of the property
-    n_cases = 400 if big else 90
+    n_cases = 400 if big else (180 if esc else 90)
     n_walks = 400 if big else 120
     for _ in range(n_cases):
         S = rng.randint(1, 3)
@@ -731,6 +796,7 @@ def search_failing_input(ctx, case, budget=4000):
     """A disagreement was seen for `case`: look for a schedule on which the implementation violates
     the property itself (this case and its neighbourhood: one subscriber/message/capacity unit away)."""
     cases = [case]
+    divider = case.get("type") == "divider"
     S, N = len(case["drives"]), len(case["items"])
     if case["cap"] is not None:
         for dc in (-1, 1):
@@ -738,7 +804,7 @@ def search_failing_input(ctx, case, budget=4000):
                 c2 = json.loads(json.dumps(case))
                 c2["cap"] = case["cap"] + dc
                 cases.append(c2)
-    if not any(it[0] >= 0 for it in case["items"]) and not case["nfut"]:
+    if not divider and not any(it[0] >= 0 for it in case["items"]) and not case["nfut"]:
         for dN in (-1, 1):
             if 0 <= N + dN <= 5:
                 cases.append(mk_case(case["cap"], case["lazy"], case["drives"], N + dN, killer=case["killer"]))
@@ -746,13 +812,13 @@ def search_failing_input(ctx, case, budget=4000):
             cases.append(mk_case(case["cap"], case["lazy"], case["drives"] + [True], N, killer=case["killer"]))
     tasks = []
     for c in cases:
-        if not valid_case(c):
+        if not divider and not valid_case(c):
             continue
         tasks.append({"kind": "dfs", "case": c, "bound": 2, "max_runs": budget, "compare": False})
         tasks.append({"kind": "random", "case": c, "n": budget // 4, "seed": ctx.rng.getrandbits(48),
                       "sticky": 0.5, "compare": False})
-    for r in run_tasks(tasks):
-        if r["failures"]:
+    for r in run_tasks(tasks, fail_fast=True):
+        if r is not None and r["failures"]:
             return r["case"], r["failures"][0]
     return None, None
 
@@ -774,8 +840,13 @@ def run(ctx):
     ctx.assumptions.append("CPython RLock/Condition behave as documented; timeouts are represented by deadlock")
     tasks = build_tasks(ctx)
     t0 = time.time()
-    results = run_tasks(tasks)
+    results = run_tasks(tasks, fail_fast=True)
     ctx.notes.append("exploration wall time %.1fs for %d tasks" % (time.time() - t0, len(tasks)))
+    skipped = sum(1 for r in results if r is None)
+    if skipped:
+        ctx.notes.append("%d tasks not run: stopped at the first concrete failing input" % skipped)
+    tasks = [t for t, r in zip(tasks, results) if r is not None]
+    results = [r for r in results if r is not None]
     slow = sorted(results, key=lambda r: -r["wall"])[:5]
     ctx.notes.append("slowest tasks: " + "; ".join("%s %s %d runs %.1fs" % (r["kind"], _tag(r["case"]), r["runs"], r["wall"])
                                                    for r in slow))
@@ -845,18 +916,19 @@ def run(ctx):
     concrete = any(not v["nfi"] for v in ctx.violations)
     for r in disagreeing[:6]:
         c = r["case"]
+        unit = "divider" if c.get("type") == "divider" else "mailbox"
         dis = r["disagreements"][0]
         if not concrete:
             fc, f = search_failing_input(ctx, c)
             if f:
                 concrete = True
-                ctx.violation("mailbox", "strax.Mailbox violates C05 (%s): %s" % (_tag(fc), f["what"]),
+                ctx.violation(unit, "strax.Mailbox violates C05 (%s): %s" % (_tag(fc), f["what"]),
                               {"input": {"case": fc, "schedule": f["schedule"]}, "outcome": f["outcome"],
                                "final": f["final"], "found_after_disagreement": dis["what"]})
                 continue
-        ctx.violation("mailbox", "model and implementation disagree (%s, %d of %d schedules): %s"
+        ctx.violation(unit, "model and implementation disagree (%s, %d of %d schedules): %s"
                       % (_tag(c), r["n_disagreements"], r["runs"], dis["what"]),
-                      {"input": "corr:C05/mailbox/%s" % r["kind"], "case": c, "schedule": dis["schedule"],
+                      {"input": "corr:C05/%s/%s" % (unit, r["kind"]), "case": c, "schedule": dis["schedule"],
                        "what": dis["what"], "impl_obs": dis["impl_obs"]}, no_failing_input=True)
     kernel_crosscheck(ctx, tasks, results)
 
@@ -919,8 +991,10 @@ def replay(ctx, obj):
     res = run_schedule(system_factory(case), schedule)
     if case.get("type") == "divider":
         f = divider_failure(case, res)
+        bad = compare_with_model(case, [res])
         print("case:", _tag(case), "schedule:", schedule)
         print("outcome:", res.outcome, "final:", res.system_info)
+        print("model comparison:", bad[0][1] if bad else "agrees")
         print("property:", f or "holds on this schedule")
         shutdown_pool()
         return 1 if f else 0
